@@ -16,7 +16,7 @@ import vlib
 
 def gen(ctx):
     rng = ctx.rng
-    n = 160 if ctx.quick() else 1500
+    n = 160 if ctx.quick() else 8000
     extra = dict(heapgen.EXTRA)
 
     def op_tparse(rng, pool, docs):
